@@ -41,6 +41,22 @@ Proof.
       * split; assumption.
 Qed.
 
+Lemma zsorted_ext (l1 : list Z) : forall l2, zsorted l1 -> zsorted l2 -> (forall x, In x l1 <-> In x l2) -> l1 = l2.
+Proof.
+  induction l1 as [|a t IH]; intros [|b u] H1 H2 E.
+  - reflexivity.
+  - exfalso. apply (proj2 (E b)). left. reflexivity.
+  - exfalso. apply (proj1 (E a)). left. reflexivity.
+  - destruct H1 as [Ha Ht]. destruct H2 as [Hb Hu].
+    assert (a = b).
+    { destruct (proj1 (E a) (or_introl eq_refl)) as [->|A]; [reflexivity|].
+      destruct (proj2 (E b) (or_introl eq_refl)) as [->|B]; [reflexivity|].
+      specialize (Hb _ A). specialize (Ha _ B). lia. }
+    subst b. f_equal. apply IH; [exact Ht|exact Hu|]. intros x. split; intros Hx.
+    + destruct (proj1 (E x) (or_intror Hx)) as [<-|X]; [specialize (Ha _ Hx); lia|exact X].
+    + destruct (proj2 (E x) (or_intror Hx)) as [<-|X]; [specialize (Hb _ Hx); lia|exact X].
+Qed.
+
 Section OrderedMapFacts.
 Context {K : Type} (kltb : K -> K -> bool).
 Hypothesis ltb_irrefl : forall a, kltb a a = false.
@@ -280,6 +296,41 @@ Proof.
       destruct (x <? z); [discriminate|]. destruct (z <? x); discriminate.
 Qed.
 
+(* a map in this form is determined by what it lists: two strictly sorted maps without empty entries that list the same
+   (name, offset) pairs are the same list *)
+Lemma ksorted_ext (m1 : list (K * list Z)) : forall m2, ksorted m1 -> ksorted m2 ->
+  (forall e, In e m1 -> snd e <> []) -> (forall e, In e m2 -> snd e <> []) ->
+  (forall k x, listed m1 k x <-> listed m2 k x) -> m1 = m2.
+Proof.
+  induction m1 as [|[k1 s1] t1 IH]; intros [|[k2 s2] t2] S1 S2 N1 N2 E.
+  - reflexivity.
+  - exfalso. specialize (N2 (k2, s2) (or_introl eq_refl)). cbn [snd] in N2. destruct s2 as [|x s2]; [congruence|].
+    destruct (proj2 (E k2 x)) as [s [[] _]]. exists (x :: s2). split; [left; reflexivity|left; reflexivity].
+  - exfalso. specialize (N1 (k1, s1) (or_introl eq_refl)). cbn [snd] in N1. destruct s1 as [|x s1]; [congruence|].
+    destruct (proj1 (E k1 x)) as [s [[] _]]. exists (x :: s1). split; [left; reflexivity|left; reflexivity].
+  - destruct S1 as [H1 [Z1 T1]]. destruct S2 as [H2 [Z2 T2]].
+    assert (HK : k1 = k2).
+    { pose proof (N1 (k1, s1) (or_introl eq_refl)) as X1. pose proof (N2 (k2, s2) (or_introl eq_refl)) as X2. cbn [snd] in X1, X2.
+      destruct s1 as [|x1 s1]; [congruence|]. destruct s2 as [|x2 s2]; [congruence|].
+      destruct (proj1 (E k1 x1)) as [s [[A|A] _]]; [exists (x1 :: s1); split; left; reflexivity|inversion A; reflexivity|].
+      destruct (proj2 (E k2 x2)) as [s' [[B|B] _]]; [exists (x2 :: s2); split; left; reflexivity|inversion B; reflexivity|].
+      pose proof (H2 _ A) as L1. pose proof (H1 _ B) as L2. cbn [fst] in L1, L2.
+      rewrite (asym _ _ L1) in L2. discriminate. }
+    subst k2.
+    assert (HS : s1 = s2).
+    { apply zsorted_ext; [exact Z1|exact Z2|]. intros x. split; intros Hx.
+      - destruct (proj1 (E k1 x)) as [s [[A|A] Hs]]; [exists s1; split; [left; reflexivity|exact Hx]|inversion A; subst; exact Hs|].
+        pose proof (H2 _ A) as L. cbn [fst] in L. rewrite ltb_irrefl in L. discriminate.
+      - destruct (proj2 (E k1 x)) as [s [[A|A] Hs]]; [exists s2; split; [left; reflexivity|exact Hx]|inversion A; subst; exact Hs|].
+        pose proof (H1 _ A) as L. cbn [fst] in L. rewrite ltb_irrefl in L. discriminate. }
+    subst s2. f_equal. apply IH; [exact T1|exact T2|intros; apply N1; right; assumption|intros; apply N2; right; assumption|].
+    intros k x. split; intros [s [Hin Hx]].
+    + destruct (proj1 (E k x)) as [s' [[A|A] Hs']]; [exists s; split; [right; exact Hin|exact Hx]| |exists s'; split; assumption].
+      inversion A; subst. pose proof (H1 _ Hin) as L. cbn [fst] in L. rewrite ltb_irrefl in L. discriminate.
+    + destruct (proj2 (E k x)) as [s' [[A|A] Hs']]; [exists s; split; [right; exact Hin|exact Hx]| |exists s'; split; assumption].
+      inversion A; subst. pose proof (H2 _ Hin) as L. cbn [fst] in L. rewrite ltb_irrefl in L. discriminate.
+Qed.
+
 Lemma map_of_pairs_nonempty (l : list (K * Z)) : forall e, In e (map_of_pairs kltb l) -> snd e <> [].
 Proof.
   unfold map_of_pairs. assert (H : forall e, In e (@nil (K * list Z)) -> snd e <> []) by (intros ? []). revert H.
@@ -353,6 +404,21 @@ Proof.
   - intros [u [Hu [Hc [<- ->]]]]. exists u. split; [reflexivity|apply filter_In; split; assumption].
 Qed.
 
+(* two frames (of one dump or of two) whose overlapping modules give the same SET of (name, offset) pairs get the same map *)
+Lemma frame_offsets_same_pairs p1 p2 perm1 perm2 addr1 addr2 l1 l2 :
+  (forall h, Permutation (perm1 h) h) -> (forall h, Permutation (perm2 h) h) -> umods_wf l1 -> umods_wf l2 ->
+  (forall n x, In (n, x) (hit_pairs addr1 l1) <-> In (n, x) (hit_pairs addr2 l2)) ->
+  frame_offsets p1 perm1 addr1 l1 = frame_offsets p2 perm2 addr2 l2.
+Proof.
+  intros H1 H2 W1 W2 E. rewrite !frame_offsets_closed by assumption. f_equal.
+  apply (ksorted_ext bytes_ltb bytes_ltb_irrefl bytes_ltb_trans).
+  - apply map_of_pairs_sorted. exact bytes_ltb_trans.
+  - apply map_of_pairs_sorted. exact bytes_ltb_trans.
+  - apply map_of_pairs_nonempty.
+  - apply map_of_pairs_nonempty.
+  - intros k x. rewrite !(map_of_pairs_listed bytes_ltb bytes_ltb_trans bytes_ltb_total). apply E.
+Qed.
+
 (* ---- with hash containers in place of the ordered ones the printers depend on the iteration order *)
 Lemma render_unloaded_hash_depends :
   render_unloaded (fun x => x) (fun x => x) [(1, [10]); (2, [20])] <> render_unloaded (@rev _) (fun x => x) [(1, [10]); (2, [20])].
@@ -394,6 +460,47 @@ Proof.
   generalize (@nil (C * list M)). induction members as [|e t IH]; intros m Hm; cbn [fold_left]; [exact Hm|].
   apply IH. apply hm_insert_nodup. exact Hm.
 Qed.
+
+Lemma ceqb_refl c : ceqb c c = true.
+Proof. apply ceqb_spec. reflexivity. Qed.
+
+Lemma hm_get_insert c ms (m : list (C * list M)) c' :
+  hm_get ceqb c' (hm_insert ceqb c ms m) = if ceqb c' c then Some ms else hm_get ceqb c' m.
+Proof.
+  induction m as [|[k v] t IH]; cbn [hm_insert hm_get]; [reflexivity|].
+  destruct (ceqb c k) eqn:E; cbn [hm_get].
+  - apply ceqb_spec in E. subst k. destruct (ceqb c' c); reflexivity.
+  - rewrite IH. destruct (ceqb c' k) eqn:E2; [|reflexivity].
+    apply ceqb_spec in E2. subst k. destruct (ceqb c' c) eqn:E3; [|reflexivity].
+    apply ceqb_spec in E3. subst c'. rewrite ceqb_refl in E. discriminate.
+Qed.
+
+Lemma hm_get_of_members (members : list (C * list M)) c :
+  hm_get ceqb c (hm_of_members ceqb members) = last_member ceqb c members.
+Proof.
+  unfold hm_of_members, last_member.
+  assert (G : forall m acc, hm_get ceqb c m = acc ->
+             hm_get ceqb c (fold_left (fun m e => hm_insert ceqb (fst e) (snd e) m) members m)
+             = fold_left (fun acc e => if ceqb c (fst e) then Some (snd e) else acc) members acc).
+  { induction members as [|e t IH]; intros m acc H; cbn [fold_left]; [exact H|].
+    apply IH. rewrite hm_get_insert. rewrite H. reflexivity. }
+  apply G. reflexivity.
+Qed.
+
+Lemma hm_get_in (m : list (C * list M)) c ms : NoDup (map fst m) -> (In (c, ms) m <-> hm_get ceqb c m = Some ms).
+Proof.
+  induction m as [|[k v] t IH]; cbn [hm_get In map fst]; intros Hn.
+  - split; [intros []|discriminate].
+  - inversion Hn as [|? ? Hk Ht]; subst. destruct (ceqb c k) eqn:E.
+    + apply ceqb_spec in E. subst k. split.
+      * intros [A|A]; [inversion A; reflexivity|]. exfalso. apply Hk. apply in_map_iff. exists (c, ms). split; [reflexivity|exact A].
+      * intros A. inversion A. left. reflexivity.
+    + rewrite <- (IH Ht). split; [intros [A|A]; [inversion A; subst; rewrite ceqb_refl in E; discriminate|exact A]|intros A; right; exact A].
+Qed.
+
+Lemma hm_of_members_in (members : list (C * list M)) c ms :
+  In (c, ms) (hm_of_members ceqb members) <-> last_member ceqb c members = Some ms.
+Proof. rewrite (hm_get_in _ _ _ (hm_of_members_nodup members)). rewrite hm_get_of_members. reflexivity. Qed.
 End CertPipelineFacts.
 
 (* ---- closed form of the certificate fold: the GREATEST certificate (in the sort order) that lists the module *)
@@ -467,6 +574,24 @@ Lemma bytes_eqb_iff a : forall b, bytes_eqb a b = true <-> a = b.
 Proof.
   induction a as [|x a IH]; intros [|y b]; cbn [bytes_eqb]; try (split; [discriminate|discriminate]); [split; reflexivity|].
   rewrite andb_true_iff, Z.eqb_eq, IH. split; [intros [-> ->]; reflexivity|intros E; inversion E; split; reflexivity].
+Qed.
+
+(* the certificate a module gets, from the members of the JSON object alone: the greatest name whose LAST member lists the module *)
+Lemma cert_pipeline_spec perm members x : (forall m, Permutation (perm m) m) ->
+  match cert_pipeline perm members x with
+  | None => forall c ms, last_member bytes_eqb c members = Some ms -> existsb (bytes_eqb x) ms = false
+  | Some c => (exists ms, last_member bytes_eqb c members = Some ms /\ existsb (bytes_eqb x) ms = true) /\
+              forall c' ms', last_member bytes_eqb c' members = Some ms' -> existsb (bytes_eqb x) ms' = true -> bytes_ltb c c' = false
+  end.
+Proof.
+  intros Hp. unfold cert_pipeline.
+  pose proof (cert_greatest_wins bytes_eqb bytes_ltb bytes_ltb_irrefl bytes_ltb_trans (perm (hm_of_members bytes_eqb members)) x) as G.
+  assert (Mem : forall c ms, In (c, ms) (perm (hm_of_members bytes_eqb members)) <-> last_member bytes_eqb c members = Some ms).
+  { intros c ms. rewrite <- (hm_of_members_in bytes_eqb bytes_eqb_iff). split; apply Permutation_in; [apply Hp|apply Permutation_sym, Hp]. }
+  destruct (cert_of bytes_eqb bytes_ltb (perm (hm_of_members bytes_eqb members)) x) as [c|].
+  - destruct G as [[ms [Hin L]] Gr]. split; [exists ms; split; [apply Mem; exact Hin|exact L]|].
+    intros c' ms' Hl Le. apply (Gr (c', ms')); [apply Mem; exact Hl|exact Le].
+  - intros c ms Hl. apply (G (c, ms)). apply Mem. exact Hl.
 Qed.
 
 Lemma cert_pipeline_order_independent perm1 perm2 members x :
